@@ -135,7 +135,7 @@ impl Check for C14 {
         tier.sz(1600, 30000)
     }
     fn rule(&self) -> &'static str {
-        "one decorated abstract grammar per case (optional declarations present/absent, non-ASCII names, %epp, action text, precedences, %avoid_insert, conflicts or none, all syntaxes) x storage {u8,u16,u32} x {fixed, variable} integer encoding: serialise with lrpar::ctbuilder::wincode exactly as the generated parser does, _reconstitute, and compare a canonical dump of every public query (all grammar accessors; every state x token action, state x rule goto, state_actions, state_shifts, core_reduces, reduce_only_state, start_state, conflict lists) and the parse results of 8 inputs (recovery off and on); every fourth grammar additionally goes through CTParserBuilder in both formats and the byte arrays and format tag scraped from the generated module are reconstituted the way the module itself does and compared with the directly built grammar/table. Non-trivial = grammar uses >= 3 optional declarations; distinct by (grammar, width, format)."
+        "one decorated abstract grammar per case (every 16th is a grammar with one production of 254-1000 symbols; optional declarations present/absent, non-ASCII names, %epp, action text, precedences, %avoid_insert, conflicts or none, all syntaxes) x storage {u8,u16,u32} x {fixed, variable} integer encoding: serialise with lrpar::ctbuilder::wincode exactly as the generated parser does, _reconstitute, and compare a canonical dump of every public query (all grammar accessors; every state x token action, state x rule goto, state_actions, state_shifts, core_reduces, reduce_only_state, start_state, conflict lists) and the parse results of 8 inputs (recovery off and on); every fourth grammar additionally goes through CTParserBuilder in both formats and the byte arrays and format tag scraped from the generated module are reconstituted the way the module itself does and compared with the directly built grammar/table. Non-trivial = grammar uses >= 3 optional declarations; distinct by (grammar, width, format)."
     }
     fn assumptions(&self) -> Vec<&'static str> {
         vec!["with recovery on, parse results are compared up to the first error's repair set (the choice among equal-rank repairs is unspecified)"]
@@ -144,12 +144,27 @@ impl Check for C14 {
         tier.sz(1200, 16000)
     }
     fn required_counters(&self, _t: Tier) -> Vec<&'static str> {
-        vec!["round_trips", "bytes_serialised", "queries_compared", "grammars_with_conflicts", "grammars_without_conflicts", "grammars_with_avoid_insert", "generated_modules_reconstituted"]
+        vec!["round_trips", "bytes_serialised", "queries_compared", "grammars_with_conflicts", "grammars_without_conflicts", "grammars_with_avoid_insert", "generated_modules_reconstituted", "long_production_grammars"]
     }
     fn run_case(&self, seed: u64, idx: u64, _tier: Tier) -> CaseOut {
         let mut out = CaseOut::new();
         let mut rng = Rng::derive(seed, "C14", idx, 0);
-        let mut ag = gen_mixed(&mut rng, true);
+        let mut ag = if idx % 16 == 3 {
+            // a production around the 255/256-symbol boundary (and one well past it); u8 refuses it
+            out.count("long_production_grammars", 1);
+            let mut g = AG::new(AKind::OriginalGeneric, "long-production");
+            let s_ = g.rule("S");
+            let a_ = g.rule("A");
+            let ts: Vec<usize> = ["a", "b", "c"].iter().map(|t| g.tok(t)).collect();
+            let n = *rng.pick(&[254usize, 255, 256, 257, 300, 1000]);
+            let syms: Vec<ASym> = (0..n).map(|i| if i % 7 == 3 { ASym::R(a_) } else { ASym::T(ts[rng.below(3)]) }).collect();
+            g.add_prod(s_, syms);
+            g.add_prod(s_, vec![ASym::T(ts[0])]);
+            g.add_prod(a_, vec![]);
+            g
+        } else {
+            gen_mixed(&mut rng, true)
+        };
         decorate(&mut ag, &mut rng);
         let rd = render_fancy(&ag, &mut rng, &YOpts::plain());
         let src = rd.text.clone();
